@@ -125,6 +125,14 @@ TABLE = [
      'delete_cron_trigger', 'mistral.services.triggers.delete_cron_trigger',
      'delete_trust', 'the trust still needed to start the last execution '
      'would be deleted first'),
+    # --- delays ------------------------------------------------------------------
+    (('C08',), E + 'policies.RetryPolicy.after_task_complete',
+     '_schedule_refresh_task_state',
+     TH + '_schedule_refresh_task_state', 'delay',
+     'a retried join would start its next attempt at once'),
+    (('C08',), E + 'policies.RetryPolicy.after_task_complete',
+     'SchedulerJob', 'mistral.scheduler.base.SchedulerJob.__init__',
+     'run_after', 'the next attempt would start at once'),
     # --- expiration / scheduler batches ------------------------------------------
     (('C13',), 'mistral.scheduler.default_scheduler.DefaultScheduler.'
      '_process_store_jobs', 'get_scheduled_jobs_to_start',
